@@ -103,6 +103,8 @@ func errClass(err error) int {
 		return 3
 	case strings.Contains(s, ": in invalid directory "):
 		return 4
+	case strings.Contains(s, ": in non-directory "):
+		return 8
 	case strings.Contains(s, "cannot embed irregular "):
 		return 5
 	case strings.Contains(s, "contains no embeddable files"):
